@@ -219,36 +219,19 @@ def step_oracles(hist, ev, before_view, before_log, w: World, result) -> list[tu
 
 
 def explore(depth: int, maxlog: int, ctx):
-    seen: dict = {}
-    frontier = collections.deque([()])
-    seen[build(()).canon()] = ()
-    transitions = 0
-    viol: dict[str, dict] = {}
-    vcount: collections.Counter = collections.Counter()
-    maxd = 0
-    while frontier:
-        h = frontier.popleft()
-        maxd = max(maxd, len(h))
-        w0 = build(h)
-        acts = enabled(w0, maxlog)
-        w0.close()
-        if len(h) >= depth:
-            continue
-        for ev in acts:
-            w = build(h)
-            before_view, before_log = w.view(), list(w.log)
-            res = w.apply(ev)
-            transitions += 1
-            for key, what in step_oracles(h, ev, before_view, before_log, w, res):
-                vcount[key] += 1
-                if key not in viol:
-                    viol[key] = {"what": f"after {list(h) + [ev]}: {what}", "replay": {"hist": [list(e) for e in h] + [list(ev)]}}
-            k = w.canon()
-            w.close()
-            if k not in seen:
-                seen[k] = h + (ev,)
-                frontier.append(h + (ev,))
-    return seen, transitions, viol, vcount, maxd
+    from mc import hist as E2
+
+    r = E2.bfs(
+        build=build,
+        enabled=lambda w: enabled(w, maxlog),
+        step=lambda w, ev: w.apply(ev),
+        canon=lambda w: w.canon(),
+        oracle=lambda h, ev, before, w, res: step_oracles(h, ev, before[0], before[1], w, res),
+        depth=depth,
+        snapshot=lambda w: (w.view(), list(w.log)),
+        close=lambda w: w.close(),
+    )
+    return r.seen, r.transitions, r.violations, r.vcount, r.max_depth
 
 
 def long_history(ctx):
